@@ -143,6 +143,41 @@ HISTORY.update({
     "b4_C20_1": "missed as built (a constant without a reference value was skipped); the reference table now knows ~30 more CODATA names and an unknown constant makes the check refuse",
     "b4_C20_2": "REFUSED (exit 2), as built and now: constants defined through a new python helper (quantity_from_si) are not folded; the check refuses instead of passing them unseen",
 })
+HISTORY.update({
+    # fifth batch (two per property; authors were told which mechanisms earlier rounds had leaned on and asked for others): 13 caught, 9 refused, 16 missed as built
+    "b5_C01_1": "caught as built", "b5_C01_2": "missed as built (the mismatch sits in a private intermediate that ends up inside log(...), whose dimension is decided anyway); "
+                "issues of private intermediates are now reported for every published relation that is built from them",
+    "b5_C02_1": "MISSED, as built and now: substitutions built by zip(Matrix.vec(), chain.from_iterable(rows)) pair column-major symbols with row-major values; the pairing of two "
+                "computed sequences is not decided",
+    "b5_C02_2": "caught as built (P1)",
+    "b5_C04_1": "caught as built (K7, by evaluation since the third refactoring corpus)",
+    "b5_C04_2": "refused as built (exit 2: BoundArguments.apply_defaults); caught after K2 got a bare zero as the reference argument of validate_output_same",
+    "b5_C05_1": "missed as built; P7 now compares one dimension written in two ways (energy vs force*length): structural == on dimensions refuses comparable quantities",
+    "b5_C05_2": "refused as built (exit 2: itertools.pairwise); caught by S3 after the evaluator learnt it",
+    "b5_C06_1": "REFUSED (exit 2), as built and now: the exponent is split with SymPy's free_symbols / as_independent, whose semantics the evaluator does not model",
+    "b5_C06_2": "refused as built (exit 2: a helper in the sibling module); caught after helpers of dimensions/miscellaneous.py were followed and the family got an angle-typed symbol",
+    "b5_C07_1": "refused as built (exit 2: ordering test on a symbolic temperature); caught after U5 evaluated from_kelvin at 0 K and below first (finding reported, then the refusal)",
+    "b5_C07_2": "missed as built (the prefix table was under no rule); rule U8 added - the seed (values read from SymPy's PREFIXES by symbol) makes it REFUSE: not a literal table",
+    "b5_C08_1": "caught as built (C04-K8)", "b5_C08_2": "caught as built",
+    "b5_C09_1": "caught as built (C14-R2)", "b5_C09_2": "refused as built (exit 2 from C09 and C18); caught by C18-L3 after regular-expression match groups counted as cutting a name",
+    "b5_C10_1": "refused as built (exit 2: is_nonzero); caught after the evaluator adopted SymPy's three-valued is_nonzero", "b5_C10_2": "caught as built",
+    "b5_C11_1": "missed as built (magnitudes were compared by their squares); T2 now also demands a positive magnitude for a negative radial component",
+    "b5_C11_2": "missed as built; rule C11-T9 added (the factories derive the new system from the given system's own CoordSys3D)",
+    "b5_C12_1": "missed as built; rule C11-T10 added (a field applied twice) and map()/generator expressions became one-shot iterators in the evaluator",
+    "b5_C12_2": "missed as built; C12 got fields whose components are the same expression (list.index finds the first)",
+    "b5_C13_1": "caught as built (J7)", "b5_C13_2": "caught as built",
+    "b5_C14_1": "refused as built (exit 2: atoms()); caught after atoms() was modelled and the compound-operand test used the sorted vectors as operands, with a case whose other "
+                "operands are the cross product's own",
+    "b5_C14_2": "MISSED, as built and now: VectorNorm._eval_derivative treats the scalar factor of an unevaluated norm(k(t)*v) as constant; the component model of R3 has no "
+                "scalar-times-vector structure to split",
+    "b5_C15_1": "missed as built; rule C15-X8 added (a point stores the coordinates it was given)", "b5_C15_2": "REFUSED (exit 2), as built and now: the scalar tables are built by a helper "
+                "(dict(zip(system.base_scalars, exprs))) instead of dict literals",
+    "b5_C16_1": "missed as built; rule C09-N8 added (no hard-coded assumption reaches the SymPy base constructor)",
+    "b5_C16_2": "missed as built (the model's contradictory equation was Python's False); it is S.false now: equal to False, not identical with it",
+    "b5_C18_1": "missed as built; rule C18-L14 added", "b5_C18_2": "missed as built; rule C18-L15 added",
+    "b5_C19_1": "missed as built; rule C19-D11 added (_find_law_directives evaluated)", "b5_C19_2": "caught as built (C09-N4)",
+    "b5_C20_1": "caught as built", "b5_C20_2": "caught as built",
+})
 DROPPED = {
     "b4_C11_1": "obsolete: the change (ScalarField.rebase returns a field that stores its value) broke C11 only through a genuine defect of the pinned tree it exposed - fields that "
                 "store a value answered points of another kind instead of refusing them. That defect was repaired in 8988336 (C11-T4 now covers stored-value fields); on the "
